@@ -732,16 +732,20 @@ class TFLiteSupportedOperators:
                 valid = True
             else:
                 # Valid if OFM is 2/4/8x IFM (-1 for align corners)
-                if align_corners:
+                if align_corners and (ifm_shape_h == 1 or ifm_shape_w == 1):
+                    # a scaling factor cannot be derived from a single row or column; not supported
+                    h_upscale_factor = w_upscale_factor = None
+                elif align_corners:
                     h_upscale_factor = (ofm_shape_h - 1) / (ifm_shape_h - 1)
                     w_upscale_factor = (ofm_shape_w - 1) / (ifm_shape_w - 1)
                 else:
                     h_upscale_factor = ofm_shape_h / ifm_shape_h
                     w_upscale_factor = ofm_shape_w / ifm_shape_w
 
-                # could use either height or width. save as int because it is more usable later in graph optimiser
-                op.attrs["upscale_factor"] = int(h_upscale_factor)
-                valid = h_upscale_factor == w_upscale_factor and h_upscale_factor in (2.0, 4.0, 8.0)
+                if h_upscale_factor is not None:
+                    # could use either height or width. save as int because it is more usable later in graph optimiser
+                    op.attrs["upscale_factor"] = int(h_upscale_factor)
+                    valid = h_upscale_factor == w_upscale_factor and h_upscale_factor in (2.0, 4.0, 8.0)
 
         return valid, f"Op has ifm_shape={ifm_shape}, ofm_shape={ofm_shape} and align_corners={align_corners}"
 
